@@ -380,6 +380,7 @@ fn sample_entry(t: &Track) -> Node {
                 avg_bitrate: *bitrate,
                 asc: enc_asc(*object_type, *freq_index, 0, *chan),
                 len_pad: 0,
+                priority: 0,
             };
             let rate = FREQS.get(*freq_index as usize).copied().unwrap_or(48000);
             Node::mixed("mp4a", enc_audio_entry(1, *chan as u16, 16, (rate & 0xffff) << 16), vec![Node::leaf("esds", enc_esds(&e))])
